@@ -315,6 +315,30 @@ harnesses! { REG_LUMA, "C12", "c12";
         let f = SrgbLumaa::<u8>::from_u16::<La>(p);
         ob!("P2.from_u16_agrees", f.luma == la.luma && f.alpha == la.alpha);
     }
+    { id: "packed.type_aliases", tier: quick, label: "complete",
+      func: "type aliases rgb::{PackedRgba, PackedArgb, PackedBgra, PackedAbgr} [rgb.rs], luma::{PackedLumaa, PackedAluma} [luma.rs]",
+      desc: "P2 through the public aliases, for all packed values: each alias names the channel order its name documents (PackedArgb = 0xAARRGGBB, ..., PackedLumaa = 0xLLAA, PackedAluma = 0xAALL)" }
+    fn pack_aliases(g) {
+        use palette::SrgbLumaa;
+        let p = g.u32();
+        cov!(g, p > 0x01020304);
+        let (b3, b2, b1, b0) = ((p >> 24) as u8, (p >> 16) as u8, (p >> 8) as u8, p as u8);
+        let c: Srgba<u8> = palette::rgb::PackedRgba::<u32>::from(p).unpack();
+        ob!("P2.alias.PackedRgba", c.red == b3 && c.green == b2 && c.blue == b1 && c.alpha == b0);
+        let c: Srgba<u8> = palette::rgb::PackedArgb::<u32>::from(p).unpack();
+        ob!("P2.alias.PackedArgb", c.alpha == b3 && c.red == b2 && c.green == b1 && c.blue == b0);
+        let c: Srgba<u8> = palette::rgb::PackedBgra::<u32>::from(p).unpack();
+        ob!("P2.alias.PackedBgra", c.blue == b3 && c.green == b2 && c.red == b1 && c.alpha == b0);
+        let c: Srgba<u8> = palette::rgb::PackedAbgr::<u32>::from(p).unpack();
+        ob!("P2.alias.PackedAbgr", c.alpha == b3 && c.blue == b2 && c.green == b1 && c.red == b0);
+        let q = p as u16;
+        let la: SrgbLumaa<u8> = palette::luma::PackedLumaa::<u16>::from(q).unpack();
+        ob!("P2.alias.PackedLumaa", la.luma == (q >> 8) as u8 && la.alpha == q as u8);
+        let al: SrgbLumaa<u8> = palette::luma::PackedAluma::<u16>::from(q).unpack();
+        ob!("P2.alias.PackedAluma", al.alpha == (q >> 8) as u8 && al.luma == q as u8);
+        let back: palette::luma::PackedAluma<u16> = al.into();
+        ob!("P1.alias.PackedAluma_pack", back.color == q);
+    }
 }
 
 fn named_chunk<G: Gen>(g: &mut G, lo: usize, hi: usize) {
